@@ -128,8 +128,17 @@ type FactFn func(cond ssa.Value, val bool) int
 // (a) an edge establishing the fact dominates the site (if/else, switch case);
 // (b) early exit: an If that dominates the site has an edge establishing the
 // negation whose target cannot reach the site (`if !fact { return }`).
-func guardedBy(site ssa.Instruction, fact FactFn) bool {
+func guardedBy(site ssa.Instruction, fact0 FactFn) bool {
 	b := site.Block()
+	// a condition that is a call to a small boolean helper of the same package is
+	// looked through: the helper returning true (false) establishes whatever every
+	// one of its paths returning that value establishes
+	fact := func(cond ssa.Value, val bool) int {
+		if r := fact0(cond, val); r != 0 {
+			return r
+		}
+		return helperFact(b.Parent(), cond, val, fact0, 0)
+	}
 	for _, cf := range dominatingConds(b) {
 		cond, val := stripNot(cf.Cond, cf.Val)
 		if fact(cond, val) > 0 {
